@@ -185,8 +185,8 @@ def sweep_events(ctx, n_frames, start_id):
     rng = ctx.rng
     eid = start_id
     for _ in range(n_frames):
-        kinds = rng.choice(['if', 'if', 'ifb', 'ifO', 'iU', 'fO', 'i', 'f', 'ifbUO'])
-        f = C.rand_frame(rng, 4, 5, kinds=kinds, min_rows=1, min_cols=1, na=rng.choice([0.0, 0.3]),
+        kinds = rng.choice(['if', 'if', 'if', 'ifb', 'ifO', 'iU', 'fO', 'i', 'f', 'ifbUO'])
+        f = C.rand_frame(rng, 4, 6, kinds=kinds, min_rows=1, min_cols=2, na=rng.choice([0.0, 0.3, 0.5]),
                          index_kind=rng.choice(['str', 'int', 'auto']), columns_kind='str')
         lays = P.layouts_for([c['dt'] for c in f['cols']])
         if len(lays) > 5:
@@ -194,7 +194,7 @@ def sweep_events(ctx, n_frames, start_id):
         if len(lays) < 2:
             continue
         frames = [P.build_frame(f, lay) for lay in lays]
-        names = rng.sample(sorted(SWEEP), 14 if ctx.tier == 'quick' else 40)
+        names = sorted(SWEEP)
         for name in names:
             fn = SWEEP[name]
             results = []
@@ -296,7 +296,7 @@ def main(ctx):
         xl.append({'id': len(xl), 'kind': 'sweep', 'op': cs['op'], 'cs': cs, 'f': cs['f'], 'layouts': lays, 'results': results})
         ctx.count('V_ops_cases')
     # ---- V (b) + (c)
-    sw = xl + sweep_events(ctx, 60 if quick else 1200, len(xl))
+    sw = xl + sweep_events(ctx, 45 if quick else 1500, len(xl))
     ro = routes_events(ctx, 300 if quick else 6000, len(sw))
     rej = ctx.validate_events('Trace_C03', 'Trace.cfg', sw + ro, chunk=600)
     for ev in sw + ro:
